@@ -204,7 +204,7 @@ def detect_strategy():
             "bad_size": st.integers(0, 2**32 - 1),
             "nonce": st.binary(min_size=4, max_size=4),
             "prepend": st.one_of(st.just(b""), st.binary(max_size=64), st.integers(0, 900).map(lambda n: b"\x90" * n)),
-            "e_lfanew": st.one_of(st.sampled_from([0x40, 0x80, 0xF8, 0x3F0]), st.integers(0x40, 0x3F0)),
+            "e_lfanew": st.one_of(st.sampled_from([0x40, 0x80, 0xF8, 0x3F0, 0x3FF]), st.integers(0x40, 0x3FF)),
             "tail": st.binary(max_size=37),
         }
     )
